@@ -118,6 +118,7 @@ type interpreter struct {
 	regexps      map[*value]*regexp.Regexp
 	initFnDone   map[*ssa.Function]bool
 	hashes       []hashEntry
+	abiEvents    map[string]bool
 	hashN        int
 	symMapOrder  bool
 	mapOrderN    int
